@@ -222,6 +222,17 @@ def run(tier: str, rd):
     for k in range(nq + 1):
         for tup in itertools.product(QUOTED_ALPHA, repeat=k):
             items.append(("qval", "".join(tup)))
+    # lengths around the printer's thresholds (70 characters for the single-line form of a block string, 80 for line wrapping):
+    # every one-symbol prefix and suffix around a filler, with and without an interior line terminator
+    edge = [""] + BLOCK_ALPHA
+    for total in ((69, 70, 71, 72, 81) if tier == "quick" else (68, 69, 70, 71, 72, 73, 79, 80, 81, 120)):
+        for pre in edge:
+            for suf in edge:
+                for mid in ("", "\n"):
+                    fill = total - len(pre) - len(suf) - len(mid)
+                    sv = pre + "a" * (fill // 2) + mid + "a" * (fill - fill // 2) + suf
+                    items.append(("raw", sv))
+                    items.append(("bval", sv))
     rng = random.Random(seed())
     for _ in range(2000 if tier == "quick" else 20000):   # class-uniformity sample: arbitrary Unicode scalar values
         s = gen_doc.rand_string_value(rng, 10)
